@@ -75,6 +75,8 @@ pub proof fn c05_sim_lookup_topic(rp: Map<u32, StreamState>, sid: u32, ident: &I
 // ---- streams ---------------------------------------------------------------------------------------------------------
 // runtime: [C06.update.stream] stream_cat(final) == stream_cat(old).insert(sid, name), [C06.update.stream.maps] the record is
 // `Stream { name, ..old }` and every other stream is untouched (System::update_stream, unit catalogue_maps)
+// LINKED: units/catalogue_maps/lemmas.rs, composition harness [C05.link.replay_more.rt_update_stream] proves that the real System::update_stream
+// does exactly this to the catalogue read off the running system (mirror edits of CTopic / CStream / rt_update_stream there)
 pub open spec fn rt_update_stream(c: Map<u32, CStream>, sid: u32, name: Name) -> Map<u32, CStream> {
     c.insert(sid, CStream { name: name, ..c[sid] })
 }
@@ -121,6 +123,10 @@ pub proof fn c05_sim_purge(rp0: Map<u32, StreamState>, rp1: Map<u32, StreamState
 // max_topic_size, replication_factor of topic tid are set, consumer groups / partitions / other topics untouched;
 // [C05.journal.update_topic] (unit runtime_more): the journalled command carries the name and the settings as the runtime
 // stored them (expiry and size limit resolved against the configuration)
+// (link pass 2: compression_algorithm, replication_factor and the partition key set were cited but stated by no clause; now
+//  [C06.shape.update_topic.settings] (catalogue_maps), [C05.shape.rt.update_topic.settings] / [C05.journal.update_topic.settings] (runtime_more).
+//  NOT linked by a harness: the runtime record keeps `replication_factor: u8` (`None` is stored as 1, systems/topics.rs:197) while `repl` here is
+//  the journalled Option<u8> — the catalogue cannot be read off the running system without changing CTopic.repl to `unwrap_or(1)`.)
 pub open spec fn rt_update_topic(c: Map<u32, CStream>, sid: u32, tid: u32, j: UpdateTopic) -> Map<u32, CStream> {
     c.insert(sid, CStream { topics: c[sid].topics.insert(tid, CTopic { name: j.name, compression: j.compression_algorithm, expiry: j.message_expiry,
         max_size: j.max_topic_size, repl: j.replication_factor, ..c[sid].topics[tid] }), ..c[sid] })
@@ -260,6 +266,8 @@ pub proof fn c05_sim_lookup_user(rp: Map<u32, UserState>, a: Map<u32, CUser>, no
 }
 // runtime: [C06.users.update] (System::update_user, unit catalogue_more) `updated_user(old, username, status)`; also
 // [C10.shape.update_user.credentials] (unit credentials): id, password and tokens untouched
+// LINKED: units/catalogue_more/lemmas.rs, composition harness [C06.link.replay_more.rt_update_user] proves that the real System::update_user
+// does exactly this to the user catalogue read off the running system (mirror edits of CTok / CUser / rt_update_user there)
 pub open spec fn rt_update_user(a: Map<u32, CUser>, uid: u32, username: Option<Name>, status: Option<UserStatus>) -> Map<u32, CUser> {
     a.insert(uid, CUser { username: (if username is Some { username->0 } else { a[uid].username }), status: (if status is Some { status->0 } else { a[uid].status }), ..a[uid] })
 }
